@@ -18,6 +18,7 @@ import types
 from collections.abc import Awaitable
 from typing import Any, Optional, Type
 
+from tornado import _verif
 from tornado import gen, ioloop
 from tornado.concurrent import Future, future_set_result_unless_cancelled
 
@@ -198,6 +199,8 @@ class Event:
     def __init__(self) -> None:
         self._value = False
         self._waiters: set[Future[None]] = set()
+        if _verif.ENABLED:
+            self._waiters = _verif.OrderedSet()  # type: ignore
 
     def __repr__(self) -> str:
         return "<{} {}>".format(
